@@ -38,6 +38,12 @@ fn main() {
         scale_pct,
     };
     case::install_panic_hook();
+    let quiet_ms = match ctx.variant.as_str() {
+        "rel" => 30_000,
+        "dbg" => 60_000,
+        _ => 240_000,
+    };
+    lzv::mt::SPIN_QUIET_MS.store(quiet_ms, std::sync::atomic::Ordering::Relaxed);
     if cfg!(miri) {
         // Miri cannot execute the asm block of decode_direct_bits
         lzma_rust2::verif::set_force_portable_direct_bits(true);
